@@ -1,6 +1,6 @@
 (* Extraction of every executable Model and Spec entry point.  ExtrOcamlBasic only. *)
 From Coq Require Import Extraction ExtrOcamlBasic.
-From SA Require Import Base.Prelude Solr.MM Solr.MM_Spec Kernels.Intersect Kernels.Linear Kernels.Spec Codec.Codec Codec.Codec_Spec Index.Index Index.Index_Spec Query.Phrase Query.Phrase_Spec Score.BM25 Score.Score Query.Range Query.Range_Spec View.View View.View_Spec View.Purity.
+From SA Require Import Base.Prelude Solr.MM Solr.MM_Spec Kernels.Intersect Kernels.Linear Kernels.Spec Codec.Codec Codec.Codec_Spec Index.Index Index.Index_Spec Query.Phrase Query.Phrase_Spec Score.BM25 Score.Score Query.Range Query.Range_Spec View.View View.View_Spec View.Purity Solr.Edismax Solr.Edismax_Spec.
 Extraction "samodel.ml"
   mm_f64 solr_mm
   intersect_drop intersect_keep adjacent intersect_with_adjacents lowbit
@@ -17,4 +17,5 @@ Extraction "samodel.ml"
   termfreqs_range phrase_freqs_range tf_range_spec phrase_range_spec aligned
   of_index select_chain copy v_termfreqs v_phrase_freqs v_docfreq v_doclengths v_positions v_score_bm25 v_score_args
   view_docs compose_rows rows0
-  run init_pool.
+  run init_pool
+  edismax edismax_spec.
